@@ -103,7 +103,7 @@ def gen_write():
             nm = f'c02_{t}_b2_e{kind}_m{full}_pt{pt}'
             fns.append(f'pub fn {nm}<S: Src>(s: &mut S) {{\n    b2_body_pin::<S, {TYPES[kind]}>(s, {full}, 1, 2, {pt})\n}}')
             hs.append(f'    {REC_STUBS} #[kani::unwind(22)] {nm};')
-    for (t, ns, ne, k0, m) in (('t', 1, 1, 3, 2047), ('t', 2, 2, 0, 2047), ('t', 2, 2, 3, 0), ('t', 1, 2, 5, 1031), ('q', 0, 0, 0, 0)):
+    for (t, ns, ne, k0, m) in (('x', 1, 1, 3, 2047), ('x', 2, 2, 0, 2047), ('x', 2, 2, 3, 0), ('x', 1, 2, 5, 1031), ('q', 0, 0, 0, 0)):
         nm = f'c02_{t}_b2_lib_{ns}x{ne}_k{k0}_m{m}'
         fns.append(f'pub fn {nm}<S: Src>(s: &mut S) {{\n    b2_lib_body(s, {ns}, {ne}, {k0}, {m})\n}}')
         hs.append(f'    {REC_STUBS} #[kani::unwind(60)] {nm};')
@@ -181,11 +181,11 @@ def gen_read():
             nm = f'c03_{t}_r2p_e{kind}_m{m}'
             fns.append(f'pub fn {nm}<S: Src>(s: &mut S) {{\n    elem_rt_body::<S, {TYPES[kind]}>(s, {m}, 1, 2, false)\n}}')
             hs.append(f'    {PARSE_STUBS} #[kani::unwind(22)] {nm};')
-    for (t, ns, ne, k0, m) in (('q', 0, 0, 0, 0), ('t', 1, 1, 0, 0), ('t', 1, 1, 4, 1023), ('t', 2, 1, 2, 0), ('t', 1, 2, 5, 7), ('t', 2, 2, 0, 0)):
+    for (t, ns, ne, k0, m) in (('q', 0, 0, 0, 0), ('x', 1, 1, 0, 0), ('x', 1, 1, 4, 1023), ('x', 2, 1, 2, 0), ('x', 1, 2, 5, 7), ('x', 2, 2, 0, 0)):
         nm = f'c01_{t}_l2b_lib_{ns}x{ne}_k{k0}_m{m}'
         fns.append(f'pub fn {nm}<S: Src>(s: &mut S) {{\n    lib_rt_body(s, {ns}, {ne}, {k0}, {m}, true, false)\n}}')
         hs.append(f'    {PARSE_STUBS} #[kani::unwind(60)] {nm};')
-    for (t, ns, ne, k0, m) in (('q', 0, 0, 0, 0), ('t', 1, 1, 6, 3), ('t', 1, 1, 3, 1023)):
+    for (t, ns, ne, k0, m) in (('q', 0, 0, 0, 0), ('x', 1, 1, 6, 3), ('x', 1, 1, 3, 1023)):
         nm = f'c03_{t}_r2_lib_junk_{ns}x{ne}_k{k0}_m{m}'
         fns.append(f'pub fn {nm}<S: Src>(s: &mut S) {{\n    lib_rt_body(s, {ns}, {ne}, {k0}, {m}, false, true)\n}}')
         hs.append(f'    {PARSE_STUBS} #[kani::unwind(60)] {nm};')
